@@ -57,6 +57,19 @@ def run(ctx):
         for _ in range(reps if n > 2 else 1):
             mode, xs = gen_array(rng, n)
             cases.append((mode, xs))
+    # the in-place block merge changes behaviour with the number of distinct keys (size of the internal buffers) and with
+    # the block size reaching the 512-element cache: few-key arrays at lengths around 1024 / 2048 / 3072 / 4096
+    edge_lens = list(range(1022, 1028)) + list(range(2040, 2050)) + list(range(3062, 3074)) + list(range(4086, 4097))
+    if not thorough:
+        edge_lens = [n for n in edge_lens if n % 2 == 0 or n in (1023, 1025, 2047, 3071, 4095)]
+    for n in edge_lens:
+        for k in (1, 2, 3, 4, 5, 8) if thorough else (2, 3, 4):
+            base = sorted({p_C08.rand_inst(rng) for _ in range(k + 3)}, key=p_C08.okey)[:k]
+            if rng.random() < 0.5 and k >= 2:
+                d = base[0]
+                base[:2] = [d[:3] + (255, 0, 0, 0), d[:3] + (10, 0, 0, 1023)]
+            xs = [rng.choice(base) for _ in range(n)]
+            cases.append(("edge-%dkeys" % k, xs))
     ops, chk = [], []
     for mode, xs in cases:
         h = " ".join(hex16(*t) for t in xs)
